@@ -44,9 +44,12 @@ def run(chk, repo):
     link_tables(chk, repo, L, "C03")
     from .common_rules import record_type_dispatch, to_dict_contract, variable_conversion
     chk.rule("C03-T6", "record-type dispatch, to_dict contract, Variable conversion", 5)
-    record_type_dispatch(chk, repo, "C03-T6")
-    to_dict_contract(chk, repo, "C03-T6")
-    variable_conversion(chk, repo, "C03-T6")
+    from .common_rules import record_dispatch_eval, variable_conversion_eval
+    chk.attempt(record_dispatch_eval, chk, repo, "C03-T6")
+    chk.attempt(record_type_dispatch, chk, repo, "C03-T6", covered_by="record_dispatch_eval")
+    chk.attempt(to_dict_contract, chk, repo, "C03-T6")
+    chk.attempt(variable_conversion_eval, chk, repo, "C03-T6")
+    chk.attempt(variable_conversion, chk, repo, "C03-T6", covered_by="variable_conversion_eval")
     # T5: header attributes present exactly when the field is non-blank (sentinel agreement, shared with C20-P2/P4)
     from .c20 import header_sentinels
     chk.rule("C20-P2", "C03-T5: header transformers test the blank sentinel of their field's codec", 4)
